@@ -322,6 +322,9 @@ def schnorrsig_sign(msg, keypair, nonce_function=None, extra_data=None, context=
     if len(keypair) == 32:
         keypair = keypair_create(keypair, context=context)
     assert len(keypair) == 96
+    # the public half must belong to the secret (libsecp256k1 signs with both halves)
+    if keypair != keypair_create(keypair[:32], context=context):
+        raise ValueError("Invalid keypair")
     return _key.sign_schnorr(keypair[:32], msg, extra_data)
 
 
